@@ -57,7 +57,7 @@ package engine
 // State invariant named by the property: whenever delta rules are evaluated, every fact of the delta is already in
 // the store (the other premises of a delta rule are matched against the store).
 //@ spec func deltaInStore(e *engine) bool = forall a ast.Atom :: a in factstore.view(e.deltaStore) ==> a in factstore.view(e.store)
-//@ spec func ewf(e *engine) bool = e.store != nil && e.deltaStore != nil && e.programInfo != nil && e.options.predicateAllowList != nil
+//@ spec func ewf(e *engine) bool = e.store != nil && e.deltaStore != nil && e.programInfo != nil && e.options.predicateAllowList != nil && allocated(e.store)
 
 // mergeDelta adds every delta fact to the store (merge-predicate replacement aside). Contract ASSUMED: its body
 // works through GetAllFacts callbacks and is not verified in this revision.
@@ -103,6 +103,12 @@ package engine
 //@   guard return in loop 5: err != nil
 //@   loop 5 invariant deltaInStore(e)
 //@   loop 5 atback e.options.totalFactLimit > 0 ==> factstore.fcount(e.store) <= e.options.totalFactLimit
+// C01 / C20: the rounds stop only when a round derived nothing new: the flag that keeps the loop going is set whenever the
+// round's delta store received a fact, and the loop is left (without error) only with an empty delta.
+//@   loop 6 invariant newDeltaStore != nil && (!incrementalFactAdded ==> (forall a ast.Atom :: a !in factstore.view(newDeltaStore)))
+//@   loop 7 invariant newDeltaStore != nil && (!incrementalFactAdded ==> (forall a ast.Atom :: a !in factstore.view(newDeltaStore)))
+//@   loop 5 invariant allocated(e.store)
+//@   loop 5 atexit forall a ast.Atom :: a !in factstore.view(e.deltaStore)
 // C02: the rows an aggregating rule reduces are collected from ITS internal relation into buffers that are empty when
 // the collection starts (rows of an earlier aggregating rule never enter the groups of a later one).
 //@   guard call GetFacts in loop 8: len(substs) == 0 && len(inputFacts) == 0
